@@ -127,4 +127,15 @@ example : parsesBack (.bin '*' (.sci "1.5e-3".toList) (.power (.var "Tgas".toLis
   decide +kernel
 
 end
+/-- **C12 (rounding intrinsics).** `NINT` and `rint` are different functions: they differ exactly at the halves whose lower
+    neighbour is even (`NINT(2.5) = 3`, `rint(2.5) = 2`), so a translation of one into the other is not value-preserving - although
+    it agrees at every argument a random valuation is likely to draw. -/
+theorem nint_rint_differ_at_half : Fortran.fnint (5/2) = 3 ∧ Fortran.crint (5/2) = 2 ∧ Fortran.fnint (-5/2) = -3 ∧ Fortran.crint (-5/2) = -2 := by
+  decide +kernel
+
+theorem nint_rint_agree_examples :
+    Fortran.fnint (7/2) = Fortran.crint (7/2) ∧ Fortran.fnint (249/100) = Fortran.crint (249/100) ∧
+    Fortran.fnint (-13/10) = Fortran.crint (-13/10) ∧ Fortran.fnint 0 = Fortran.crint 0 := by
+  decide +kernel
+
 end Naunet.C12
